@@ -1,5 +1,5 @@
 import Driver.Util
-import Manticore.Model.C17
+import Driver.C17Parse
 import Manticore.Gen.NbtnsLocks
 /-!
   Driver ops of C17.  A whole history is ONE line.
@@ -19,113 +19,6 @@ import Manticore.Gen.NbtnsLocks
 -/
 namespace Driver.C17
 open Manticore Manticore.C17 Driver
-
-def splitOnChar (c : Char) : List Char → List (List Char)
-  | [] => [[]]
-  | x :: xs =>
-    match splitOnChar c xs with
-    | [] => [[]]
-    | hd :: tl => if x = c then [] :: hd :: tl else (x :: hd) :: tl
-
-def natOf (l : List Char) : Option Nat := (String.ofList l).toNat?
-
-def typeOf : List Char → Option NameType
-  | ['u'] => some .unique
-  | ['g'] => some .group
-  | _ => none
-
-def boolOf : List Char → Option Bool
-  | ['0'] => some false
-  | ['1'] => some true
-  | _ => none
-
-def parseOp (tok : List Char) : Option Op :=
-  match tok with
-  | 'R' :: rest =>
-    match splitOnChar '.' rest with
-    | [n, t, a, p] => do pure (.register (← natOf n) (← typeOf t) (← natOf a) (← boolOf p))
-    | _ => none
-  | 'Q' :: rest => do pure (.query (← natOf rest))
-  | 'L' :: rest =>
-    match splitOnChar '.' rest with
-    | [n, a] => do pure (.release (← natOf n) (← natOf a))
-    | _ => none
-  | 'F' :: rest =>
-    match splitOnChar '.' rest with
-    | [n, a] => do pure (.refresh (← natOf n) (← natOf a))
-    | _ => none
-  | 'C' :: rest => do pure (.markConflict (← natOf rest))
-  | ['X'] => some .clean
-  | _ => none
-
-def parseOps (s : String) : Option (List Op) :=
-  if s == "-" then some [] else (splitOnChar ',' s.toList).mapM parseOp
-
-def showType : NameType → String
-  | .unique => "u"
-  | .group => "g"
-
-def showAddrs (l : List Nat) : String :=
-  if l.isEmpty then "-" else ".".intercalate (l.map toString)
-
-def showOut : Out → String
-  | .ok => "k"
-  | .err => "e"
-  | .panic => "p"
-  | .owners l t => "o" ++ showType t ++ ":" ++ showAddrs l
-
-def parseOut (tok : List Char) : Option Out :=
-  match tok with
-  | ['k'] => some .ok
-  | ['e'] => some .err
-  | ['p'] => some .panic
-  | 'o' :: t :: ':' :: rest => do
-    let ty ← typeOf [t]
-    let l ← if rest = ['-'] then some [] else (splitOnChar '.' rest).mapM natOf
-    pure (.owners l ty)
-  | _ => none
-
-/-- `<op>@<inv>-<res>=<result>` -/
-def parseEv (tok : List Char) : Option Ev :=
-  match splitOnChar '@' tok with
-  | [op, rest] =>
-    match splitOnChar '=' rest with
-    | [times, out] =>
-      match splitOnChar '-' times with
-      | [i, r] => do pure ⟨← parseOp op, ← parseOut out, ← natOf i, ← natOf r⟩
-      | _ => none
-    | _ => none
-  | _ => none
-
-/-- run the heap model; collect results (read at return time) and the returned slices -/
-def runHist (c : Bool) : HState → List Op → List Out × List (Slice × List IP) × HState
-  | s, [] => ([], [], s)
-  | s, op :: ops =>
-    let (s', o) := hstep c s op
-    let (outs, slices, fin) := runHist c s' ops
-    match o with
-    | .owners sl _ => (viewOut s'.heap o :: outs, (sl, s'.heap.read sl) :: slices, fin)
-    | _ => (viewOut s'.heap o :: outs, slices, fin)
-
-def sortOut : Out → Out
-  | .owners l t => .owners (l.mergeSort (fun a b => decide (a ≤ b))) t
-  | o => o
-
-def histLine (c : Bool) (sorted : Bool) (ops : List Op) : String :=
-  let (outs, slices, fin) := runHist c hinit ops
-  let outs := if sorted then outs.map sortOut else outs
-  let flags := slices.map (fun p => if fin.heap.read p.1 == p.2 then "s" else "c")
-  "ok " ++ ",".intercalate (outs.map showOut) ++ "|" ++ "".intercalate flags
-
-def showSpecOut (naddr : Nat) : Spec.Out → String
-  | .ok => "k"
-  | .err => "e"
-  | .owners set t => "o" ++ showType t ++ ":" ++ showAddrs ((List.range naddr).filter set)
-
-def specLine (naddr : Nat) (ops : List Op) : String :=
-  let outs := Spec.outputs Spec.init ops
-  let flags := outs.filterMap (fun o => match o with | .owners _ _ => some "s" | _ => none)
-  "ok " ++ ",".intercalate (outs.map (showSpecOut naddr)) ++ "|" ++ "".intercalate flags
 
 def entries : List Entry := [
   { kind := "M", op := "c17.hist", run := fun
